@@ -177,6 +177,17 @@ static void check_gauss()
           g_nontrivial++;
           if (!(std::fabs(r - ex) <= eps * std::fabs(ex) * 1.0000001 + 1e-300))
             V(fmt("gauss:f%d", id), fmt("decay0_gauss(integrand %d, p=%g, [%g,%g], eps=%g) = %.15g, exact %.15g, relative error %.3g", id, p, a, b, eps, r, ex, std::fabs(r - ex) / std::fabs(ex)));
+          // reversed limits: minus the forward integral, to the same tolerance; equal limits: 0
+          if (id != 4 && scale == 1.0) {
+            double rr = bxdecay0::decay0_gauss(f_smooth, b, a, eps, &f);
+            g_eval++;
+            g_nontrivial++;
+            if (!(std::fabs(rr + ex) <= eps * std::fabs(ex) * 1.0000001 + 1e-300))
+              V(fmt("gauss:reversed:f%d", id), fmt("decay0_gauss(integrand %d, p=%g, [%g,%g] reversed, eps=%g) = %.15g, exact %.15g", id, p, b, a, eps, rr, -ex));
+            double r0 = bxdecay0::decay0_gauss(f_smooth, b, b, eps, &f);
+            g_eval++;
+            if (r0 != 0.0) V("gauss:empty", fmt("decay0_gauss over the empty interval [%g,%g] = %.15g", b, b, r0));
+          }
         }
 }
 
@@ -381,6 +392,41 @@ static void check_fermi(bool full)
       g_nontrivial++;
       if (!(std::fabs(r - ex) <= 2e-9 * std::fabs(ex)))
         V(fmt("fermi:Z%s", Z > 0 ? "pos" : "neg"), fmt("decay0_fermi(Z=%d, E=%.6g MeV) = %.15g, independent closed form %.15g (relative difference %.3g)", Z, E, r, ex, std::fabs(r - ex) / std::fabs(ex)));
+    }
+  }
+  // the other public evaluations of the Fermi function (fermi.h): the same closed form under two more names, the finite-size
+  // form F0 (x L0 on request) with R = 1.2 fm A^(1/3) and A from the library's own A(Z) polynomial, the non-relativistic form
+  for (int Z = -92; Z <= 92; Z += zstep) {
+    if (Z == 0) continue;
+    int ne = full ? 40 : 12;
+    for (int i = 0; i <= ne; i++) {
+      double E = 50e-6 * std::pow(12.0 / 50e-6, (double)i / ne);
+      double ex = fermi_ref((double)Z, E);
+      g_eval += 5;
+      g_nontrivial += 5;
+      double r1 = bxdecay0::decay0_fermi_func_orig((double)Z, E), r2 = bxdecay0::decay0_fermi_func_shape_only((double)Z, E);
+      if (!(std::fabs(r1 - ex) <= 2e-9 * std::fabs(ex))) V("fermi_func_orig", fmt("decay0_fermi_func_orig(Z=%d, E=%.6g) = %.15g, closed form %.15g", Z, E, r1, ex));
+      if (!(std::fabs(r2 - ex) <= 2e-9 * std::fabs(ex))) V("fermi_func_shape_only", fmt("decay0_fermi_func_shape_only(Z=%d, E=%.6g) = %.15g, its closed form p^(2g-2) exp(pi y) |Gamma(g+iy)|^2 = %.15g", Z, E, r2, ex));
+      // non-relativistic: t / (1 - exp(-t)), t = 2 pi alpha Z / beta
+      {
+        long double w = E / 0.51099906L + 1, pp = sqrtl(w * w - 1), t = 2 * M_PIl * (Z / 137.036L) / (pp / w);
+        double exn = (double)(t / (1 - expl(-t))), rn = bxdecay0::decay0_fermi_func_nr_approx((double)Z, E);
+        if (!(std::fabs(rn - exn) <= 1e-9 * std::fabs(exn))) V("fermi_func_nr_approx", fmt("decay0_fermi_func_nr_approx(Z=%d, E=%.6g) = %.15g, closed form %.15g", Z, E, rn, exn));
+      }
+      // finite size: F0 = 4 (2 p R)^(2g-2) exp(pi y) |Gamma(g+iy)|^2 / Gamma(2g+1)^2, L0 = (1+g)/2 [1 - aZ (W R - 7 aZ/15) - g aZ R / (2 W)]
+      {
+        long double aZ = Z / 137.036L, w = E / 0.51099906L + 1, pp = sqrtl(w * w - 1), y = aZ * w / pp, g = sqrtl(1 - aZ * aZ);
+        long double A = bxdecay0::decay0_a_from_z(std::fabs((double)Z));
+        long double R = 1.2L * cbrtl(A) * 0.51099906L / 197.3269631L;
+        LC lg = lgamma_c(LC(g, y));
+        long double F0 = 4 * powl(2 * pp * R, 2 * (g - 1)) * expl(M_PIl * y + 2 * lg.real()) / powl(tgammal(2 * g + 1), 2);
+        long double L0 = 0.5L * (1 + g) * (1 - aZ * (w * R - 7 * aZ / 15) - 0.5L * g * aZ * R / w);
+        double f0 = bxdecay0::decay0_fermi_func((double)Z, E, false), f1 = bxdecay0::decay0_fermi_func((double)Z, E, true);
+        const char * zs = Z > 0 ? "pos" : "neg";
+        if (!(std::fabs(f0 - (double)F0) <= 1e-8 * std::fabs((double)F0))) V(fmt("fermi_func:Z%s", zs), fmt("decay0_fermi_func(Z=%d, E=%.6g, false) = %.15g, finite-size closed form %.15g", Z, E, f0, (double)F0));
+        if (!(std::fabs(f1 - (double)(F0 * L0)) <= 1e-8 * std::fabs((double)(F0 * L0))))
+          V(fmt("fermi_func_L0:Z%s", zs), fmt("decay0_fermi_func(Z=%d, E=%.6g, true) = %.15g, finite-size closed form with L0 %.15g", Z, E, f1, (double)(F0 * L0)));
+      }
     }
   }
   // below 50 eV the function is documented to be evaluated at 50 eV
